@@ -197,7 +197,9 @@ pub fn place_buckets(nb: usize, counts: &[u16], values: &[u32], placement: usize
 
 pub fn qratio_alphabet() -> Vec<u32> {
     let mut v: Vec<u32> = vec![0, 1, 2, 3, 15, 16, 17, 99, 100, 101];
-    for k in [8u32, 16, 23, 24, 25, 26, 31] {
+    // every power of two and its neighbours: the saturation / sign boundaries of any narrower lane type
+    // (i8, u8, i16, u16, f32 mantissa, i32) a kernel might compare or multiply in
+    for k in 1u32..=31 {
         v.push((1u32 << k) - 1);
         v.push(1u32 << k);
         v.push((1u32 << k) + 1);
